@@ -82,7 +82,7 @@ func c01Decode(cfg int) c01Case {
 	if ag != "" && ag != "0" || ma != "" && len(ma) > 4 {
 		// sums of huge terms: a clamped Age or lifetime plus a resident time of centuries
 		set[150*365*86400] = true
-		set[280*365*86400] = true
+		set[250*365*86400] = true // the bubble's clock must stay below 2262
 	}
 	for _, l := range ls {
 		for _, a := range ages {
